@@ -205,3 +205,23 @@ def diff(a, b, ptol=0, pmod=0, path=""):
     if a != b:
         return f"{path}: {a!r} vs {b!r}"
     return None
+
+
+def check_readings(seq, proj):
+    """Sequence-level readings against the per-channel ones (C02: the sequence duration is the maximum
+    over channels, with and without the pending fall time).  Implementation against implementation:
+    the per-channel values are the ones of the projection (compared with the model elsewhere)."""
+    if not proj.get("bld") or not proj.get("ch"):
+        return []
+    out = []
+    try:
+        sd = int(seq.get_duration())
+        sf = int(seq.get_duration(include_fall_time=True))
+    except Exception as e:  # noqa: BLE001
+        return [("C02.SequenceDuration", {"raised": f"{type(e).__name__}: {e}"})]
+    du = max(ch["du"] for ch in proj["ch"])
+    df = max(ch["df"] for ch in proj["ch"])
+    if sd != du or sf != df:
+        out.append(("C02.SequenceDuration", {"sequence": [sd, sf], "max_over_channels": [du, df],
+                                             "channels": [[ch["nm"], ch["du"], ch["df"]] for ch in proj["ch"]]}))
+    return out
